@@ -136,6 +136,16 @@ def r1_codec_table(chk, repo):
     # compressor name travels through the metadata
     fsv = repo.func("FileSaver._save_chunk", FILES)
     chk.check(any(k.arg == "compressor" and norm(k.value) == "self.md['compressor']" for c in calls_in(fsv.node) for k in c.keywords), "C03.R1", fsv, None, "chunks are not compressed with the compressor recorded in the metadata", site_text="FileSaver._save_chunk: compressor=self.md['compressor']")
+    fdefs = Defs(fsv.node)
+    writes = [c for c in calls_in(fsv.node) if (call_name(c) or "").endswith("save_file") or ((call_name(c) or "").endswith(".submit") and c.args and (dotted(c.args[0]) or "").endswith("save_file"))]
+    chk.floor("C03.R1", "write calls in FileSaver._save_chunk", len(writes), 2)
+    for c in writes:
+        okw = any(k.arg == "compressor" and norm(k.value) == "self.md['compressor']" for k in c.keywords)
+        for k in c.keywords:
+            if k.arg is None and isinstance(k.value, ast.Name):
+                v = fdefs.single(k.value.id)
+                okw = okw or (v is not None and isinstance(v, ast.Call) and any(kk.arg == "compressor" and norm(kk.value) == "self.md['compressor']" for kk in v.keywords))
+        chk.check(okw, "C03.R1", fsv, stmt_of(c), f"`{norm(c)[:70]}` writes a chunk without the compressor recorded in the metadata (the default of save_file is used): the file cannot be read back with the recorded one", site_text=f"FileSaver._save_chunk: `{norm(c.func)}` carries compressor=self.md['compressor']", site={"function": fsv.qualname, "write": norm(c.func)})
     rfc = repo.func("StorageBackend._read_and_format_chunk", COMMON)
     chk.check(any(k.arg == "compressor" and norm(k.value) == "metadata['compressor']" for c in calls_in(rfc.node) for k in c.keywords), "C03.R1", rfc, None, "chunks are not decompressed with the compressor recorded in the metadata", site_text="_read_and_format_chunk: compressor=metadata['compressor']")
 
@@ -478,6 +488,8 @@ def r6_rechunker_conservation(chk, repo):
 
 
 WITNESSES = [
+    W("threaded writes forget the compressor", "C03.R1", FILES,
+      "return dict(filename=filename), executor.submit(strax.save_file, fn, **kwargs)", "return dict(filename=filename), executor.submit(strax.save_file, fn, data=data)"),
     W("per-chunk metadata named after the bare chunk number", "C03.R3", FILES,
       "fn = f\"{self.tempdirname}/metadata_{filename}.json\"", "fn = f\"{self.tempdirname}/metadata_{self.prefix}-{chunk_info['chunk_i']}.json\""),
     W("chunk files no longer zero-padded", "C03.R3", FILES,
